@@ -772,10 +772,10 @@ PROPS["C20"] = dict(
         "fault": dict(runner="C20_run", in_t="C20_in", out_t="C20_out", shard=400),
         "ti": dict(runner="C20_ti_run", in_t="C20_ti_in", out_t="C20_ti_out", shard=100),
     },
-    n_quick=1000, n_thorough=60000,
+    n_quick=2000, n_thorough=60000,
     harness_timeout=3000,
     rule="4 committed, closed files built per run (1 plain binary frame; binary + 2 zstd text frames; chunked document + binary with default "
-         "options; 3 frames with embeddings over two commits with a deleted frame), ~75-100 KiB each; the region map is computed from the "
+         "options; 3 frames with embeddings and two memory cards over two commits with a deleted frame), ~75-100 KiB each; the region map is computed from the "
          "header, the footer scan and the decoded TOC; faults: one bit flipped in every byte of the header fields, log record headers, time "
          "index, footer and (quick: an even sample sized to n, thorough: every byte) of the payloads and the TOC, samples of the other "
          "classes, zeroing of the first / last / a random 64-byte-aligned block of every region, truncation at every region start -1/+0/+1 "
@@ -783,13 +783,13 @@ PROPS["C20"] = dict(
          "embeddings, two searches, timeline, vector search) and verified with verify(deep) in worker processes; "
          "non-trivial = the fault changed the file; distinct by (file, fault kind, offset, length)",
     level_text="Unbounded theorems over the model of the checks between a changed byte and a reader (read_toc's length + commit-footer hash "
-               "comparison, track manifest checksums, validate_frame_bounds / frame_canonical_bytes, Memvid::verify check by check, the deferred "
-               "Toc::verify_checksum at the end of open_locked): hash-guarded classes detect every change (collision-freeness on the two byte "
-               "strings involved); the property as stated is refuted for the unguarded classes (payload of plain and zstd frames, time index, "
-               "log record sequence / header wal_sequence, TOC on the hinted-recovery + re-stamp path) by witnesses and, for payloads, by the "
-               "universal statement that every change is served and verify(deep) cannot see it; the detection table predicts no silent "
-               "difference outside the known classes; the repaired read / verify (separate definitions) detect every payload change. "
-               "The table is tied to the implementation by fault injection on real files.",
+               "comparison, track manifest checksums, validate_frame_bounds / read_frame_payload_bytes with the frame-checksum comparison of "
+               "/repo 55d5bb8 / frame_canonical_bytes, Memvid::verify check by check incl. FramePayloadChecksums, the deferred "
+               "Toc::verify_checksum at the end of open_locked): hash-guarded classes (TOC + footer, tracks, frame payloads plain and zstd) "
+               "detect every change (collision-freeness on the two byte strings involved), verify(deep) = Passed implies every active payload "
+               "reads as committed; the property as stated is refuted for the remaining unguarded classes (time index, log record sequence / "
+               "header wal_sequence, TOC on the hinted-recovery + re-stamp path) by witnesses; the detection table predicts no silent "
+               "difference outside the known classes. The table is tied to the implementation by fault injection on real files.",
     level_note="proof, partial: Tantivy, vector-index, sketch-track decoders, serde on damaged TOC bytes, header wal_offset / wal_size effects and "
                "the log replay are observed by the correspondence run (set-valued table entries), not modelled; recover_toc's footer scan is "
                "the C31 model, its legacy checksum scan is not modelled. Trusted: Coq kernel + vm_compute; hand-written model tied by "
@@ -934,3 +934,263 @@ PROPS["C29"] = dict(
                  "no-forgery hypothesis of the integrity theorems: a presented record is either a ciphertext lock issued or decrypts under no key/nonce (what AEAD integrity gives)"],
     allowed_axioms=[],
 )
+
+PROPS["C10"] = dict(
+    corr_module="Corr.C10",
+    streams={
+        "post": dict(runner="C10_run", in_t="C10_in", out_t="C10_out", shard=12, timeout=1500),
+    },
+    n_quick=6, n_thorough=120,
+    harness_timeout=3000,
+    rule="n corpora, each one real memory: 5-40 documents (sizes cycling 5-9 / 10-18 / 19-30 / 31-40) of 8-600 chars over a 38-word vocabulary with stem variants (run/running, plan/planned/planning, city/cities), "
+         "multi-byte words, mixed case, sentence punctuation, newlines; uri (four directories incl. a case variant, some with #fragment, some absent), title, 0-3 tags, 0-2 labels, track, explicit timestamps over 30 days; 0-2 chunked documents (2.6-4 kB: chunk frames); "
+         "0-2 updates and 0-2 deletes then commit. Three read points: committed; pending (1-4 uncommitted puts with instant index on/off, a pending delete, a pending update); committed + reopened. Per read point 24 / 13 / 24 requests: random query AST of depth <= 3 "
+         "(words drawn from the corpus 4:1, phrases of 2-3 consecutive words, wildcards, tag/label/track/uri/scope terms, date:[a TO b] with at least one bound, AND/OR/NOT; 1 in 10 a query without text token: seedless wildcard alone or with field terms) printed with minimal parentheses, explicit or implicit AND, random keyword/field case, quoted or bare values; "
+         "top_k 0-10, snippet_chars {0,40,80,120,200,400}, request uri (exact / upper-cased / without fragment / prefix) 1 in 6, scope 1 in 6, no_sketch 3 in 4; date:[* TO *] is never generated (it panics inside tantivy: separate finding). "
+         "Stream post (answered by the Tantivy pipeline, >= 1 hit; per read point the first responses whose case terms fit a 54 kB budget -- the others are checked by the property oracle only, stream post-oracle-only): compared with the model = rank, frame id, range, text, matches, chunk range, chunk text length, score of every hit, total_hits and next_cursor (exactly when the page is not full, as lower bound otherwise); the model gets the query TEXT (parsed by C32's model), "
+         "the response's own candidate frames in response order + up to 2 decoy candidates that the real evaluator (verif_hooks::evaluate_query) or the request filter rejects + stale ids, the relevant part of the frame table (candidates in full; parents / sibling chunks as skeletons with payload length), the stemmed tokens recomputed with Tantivy's analyser chain. "
+         "Property oracle on every response with hits (own evaluator over the generated AST, own uri/scope check): frame exists and is Active, lower-cased search text satisfies the query, uri/scope satisfied, <= max(1,top_k) hits, ranks 1..n, text = content at range (unchunked: frame_text_by_id; chunk: the parent's concatenated chunk payloads, or the chunk's own text), range inside chunk_range. "
+         "Responses answered by the filters-only route get the same property oracle (stream fallback, no model comparison). Responses without hits / errors are recorded in the distribution only (stream other). non-trivial = a hit and (a decoy culled or >= 2 candidate frames); distinct by corpus digest + read point + request number",
+    level_text="Unbounded composition theorem over a line-by-line model of try_tantivy_search after the engine call (post-evaluation loop with the stale / uri / scope / resolve_chunk_context / parsed.evaluate / empty-slices culls, recency re-sort as an oracle, hit assembly), uri_matches, resolve_chunk_context with document_chunk_payloads / document_chunk_frames, collect_token_occurrences, importing C32's evaluator, C35's slices and str slicing and C16's cursor: "
+               "for ANY engine output (arbitrary candidate (frame id, score) list), ANY analyser output, ANY re-sort returning members of its input, any table / query / request: at most max(1,top_k) hits, ranks 1..n, every hit names a frame of the table that is one of the engine's candidates, passes the request's uri/scope filter, whose lower-cased search text satisfies C32's eval of the parsed query (date ranges included: DateRange::matches is the evaluator's TDate case), "
+               "hit.text = chunk_text[range - chunk start] sliced on char boundaries and non-empty, range inside [chunk start, chunk start + |chunk text|] = chunk_range for valid UTF-8 payloads; the pipeline never panics (C35's call-site theorem); hit assembly is C16's page loop (simulation lemma). Active: from C08's index invariant + 'the engine returns indexed documents' (the loop itself does not read frame.status). "
+               "Second pipeline: search_with_lex_fallback proved for any legacy-index answer (partial: index content / uri filter / active rest on the index); search_with_filters_only (reached through the public API by a seedless wildcard the engine rejects) as repaired by /repo dcf427c: every hit names an existing ACTIVE frame (status is checked by that loop itself) that passes uri/scope, lies in the candidate filter and satisfies eval, for any table with ids = positions; the two former findings F-C10-1/F-C10-2 (found by this check on the old code) are kept as regression examples.",
+    level_note="PROVED for the Tantivy pipeline for any engine output and for the repaired filters-only route (the route's defects F-C10-1 / F-C10-2 found by this check were fixed in /repo dcf427c; the harness oracle treats those classes as plain violations). Partial: 'active' rests on the engine oracle returning indexed documents (C08); the legacy-index pipeline rests on that index. "
+               "Trusted: Coq kernel + vm_compute; hand-written model tied by correspondence on real memories; raw engine hits are not observable (no hook), so the model is fed the response's own frames plus decoys rejected by the real evaluator; the recency re-sort is an oracle (its order is compared by C16); Tantivy's analyser is recomputed in the harness (rust-stemmers, same crate version); "
+               "side observation (not C10): when every engine candidate is culled and no legacy index exists, Memvid::search returns Err(LexNotEnabled) instead of an empty answer.",
+    trusted_base=["engine oracle: arbitrary candidate list in the theorems; in the correspondence the response's own frames (response order) + decoys + stale ids",
+                  "engine.analyse_text (private) recomputed as alphanumeric runs -> lower-case -> Snowball English (rust-stemmers 1.2.0, the crate Tantivy links); a wrong recomputation shows up as a range mismatch",
+                  "recency re-sort: Section variable with hypothesis 'returns members of its input'; identity in the correspondence (candidates are given in response order)",
+                  "payload oracle: per frame the decoded canonical payload (length, from_utf8_lossy text) read through frame_canonical_payload; sibling chunks carry the length only",
+                  "UTF-8 decoder of the case files is glue in Corr/C10.v, every decoded text is re-encoded with the model's encoder and compared",
+                  "C32's oracles char::is_alphanumeric / parse_date_value as finite tables from the implementation"],
+    assumptions=["resort returns members of its input (any permutation / selection does)",
+                 "range inside chunk_range: payloads of the table are valid UTF-8 (payloads_utf8); search-text chunk contexts need nothing",
+                 "never panics: every evaluation text shorter than 2^63 bytes (a Rust String is), snippet_chars < 2^64",
+                 "active: engine candidates are documents of the engine (lex r), no instant-indexed put waits for its commit (tdirty = false), table statuses = the store's",
+                 "filters-only route: frame ids = table positions (C06)"],
+    allowed_axioms=[],
+)
+
+PROPS["C28"] = dict(
+    corr_module="Corr.C28",
+    streams={"hist": dict(runner="C28_run", in_t="C28_in", out_t="C28_out", shard=3, imports=["Model.Store", "Model.Reads", "Model.Persist"])},
+    n_quick=12, n_thorough=360,
+    harness_timeout=3000,
+    rule="histories of 6-22 ops on a real memory, three profiles (general; blank / binary frames that break sketch-id density; instant-indexed puts with default options): puts of short text / chunked text >= 2500 chars / whitespace-only / binary payloads, "
+         "with or without a 4-dimensional embedding, explicit uris reused across frames, track / tag / label options, instant_index on or off, update_frame with and without payload / embedding on live, inactive and missing ids, delete_frame likewise, commit, reopen, exit-without-commit + reopen; "
+         "at up to four fully committed points per history the file is byte-copied three times and FOUR handles are read: live, copy reopened read-write, copy opened read-only (Memvid::open_read_only), copy opened after doctor{rebuild_lex_index and/or rebuild_time_index}; "
+         "compared with the model for each handle: frame count, engine documents holding the probe word, vector-index ids, vec enabled, time-index ids, sketch ids in track order (the reopened handles must show the renumbered ids 0..n-1), per-op result / frame_count / next_frame_id, "
+         "and at points with pending records the ids a search for the probe word returns (engine documents incl. instant-index temporaries, restricted to the table); "
+         "property oracle (independent of the model): a battery of 30 lexical queries (single words, AND / OR / NOT, phrase, track: / tag: / label: / uri: / scope: terms, uri and scope request filters, three date ranges; top_k 7 or 50; no_sketch = true), 5 vector queries (k = 1, 3, 10, 100, 10^5; distance bit patterns) and 4 timeline queries (all, reverse + limit, since, since + until + limit; with child frames) "
+         "must give identical ordered (frame id, range) lists / totals / error kinds on the four handles (handles-differ); the same lexical battery with the sketch pre-filter on, a difference being the known class prefilter-sketch-ids-not-dense only when the live sketch ids are not 0..n-1 (else prefilter-differs); "
+         "between a put and its commit searches for words of pending documents, of committed documents and common words, with and without the pre-filter: every hit must be a frame whose text contains the word (precommit-hit-without-query), hits outside the table must be pending documents put by the harness; "
+         "non-trivial = at least one four-handle point on a memory with >= 3 frames (profile 2: also a pre-commit read); distinct by digest of the op list",
+    level_text="Unbounded theorems over a model with an explicit file image (Model/Persist.v on Model/Reads.v / Model/Store.v): commit_from_records persists exactly what rebuild_indexes / flush_tantivy / persist_sketch_track write (time index from the table, the engine's documents as embedded segments, the vector artifact, the sketch entries without ids), "
+               "Memvid::open / open_read_only / doctor build the handle from the image only (init_tantivy trusts listed segments, else rebuilds when counts differ; load_vec_index_from_manifest; read_sketch_track renumbers). Proved for EVERY history by an invariant over the operation list: "
+               "the machine that reloads from the image is step for step the machine of C08 that keeps the sets in memory; for every fully committed state the reopened read-write, read-only and doctored (rebuild_lex / rebuild_time) handles hold the live frame table, Tantivy documents, vector index and time index, hence search / vector search / timeline "
+               "(engines as oracles over what the handle holds) answer identically outside the class of F-C39-1; inside it the statement is refuted by a three-step witness; doctor{rebuild_vec_index} empties the vector index (F-C14-1); between a put and its commit every hit is a committed frame on which the query evaluates to true and never the temporary document (id next_frame_id, not in the table). "
+               "The vector and time-index parts are also derived on the C14 / C15 models (load after persist, doctor rebuild_time_index).",
+    level_note="Property as stated is REFUTED in one class, recorded as known finding prefilter-sketch-ids-not-dense (= F-C39-1 seen from Memvid::search: the sketch track stores no frame ids, a reopened handle renumbers its entries, so the pre-filter's candidate set changes whenever some frame has no sketch entry); proved outside it and with doctor's rebuild_vec_index off (F-C14-1). "
+               "Partial: Tantivy's search (BM25 ranking, tie order, the frame filter), ParsedQuery::evaluate / snippet slices, the sketch test of one entry and the vector ranking are Section variables that answer from what the handle holds - equal sets give equal answers by construction, the four-handle battery on real memories is what ties ranking and tie order to the code; "
+               "the candidate set of find_sketch_candidates is modelled for tracks of at most 500 entries (below the truncation); the legacy LexIndex fallback is not modelled (Tantivy-only memories never have its manifest; when every Tantivy hit is culled search returns LexNotEnabled, the same on all handles); Quiet (nothing pending, not dirty) is the hypothesis 'committed history'.",
+    trusted_base=["engine oracles: Tantivy search_documents over the engine's documents with the optional frame filter, ParsedQuery::evaluate / snippet slices per hit, QuerySketch::score_entry per sketch entry, VecIndex::search",
+                  "oracle inputs read from the implementation: auto-checkpoint timing and extra log records (cfg(memvid_verif) wal_stats hook), number of chunk frames, whether a frame's index text holds the probe word, whether apply_records gave a frame a sketch entry (Memvid::sketches())",
+                  "the engine's document set is observed through search for a probe word present in every text payload (top_k 5000, sketch filter off); handles other than the live one are opened on byte copies of the committed file"],
+    assumptions=["engine oracles answer from the handle's sets only", "fully committed memory (nothing pending, not dirty) for the four-handle theorems", "sketch track of at most 500 entries for the candidate-set model", "no I/O errors"],
+    allowed_axioms=[],
+)
+
+PROPS["C18"] = dict(
+    corr_module="Corr.C18",
+    streams={
+        "craft": dict(runner="C18_run", in_t="C18_in", out_t="C18_out", shard=1, timeout=1200, imports=["Model.ReadOnly"]),
+        "hist": dict(runner="C18_hist_run", in_t="C18_hist_in", out_t="C18_hist_out", shard=6, imports=["Model.Store"]),
+        # streams "sys" (strace), "crash" (crash images), "bigtail" (zero tail beyond the 16 MiB window) are checked by the implementation oracle only
+    },
+    n_quick=6, n_thorough=60,
+    harness_timeout=3000,
+    rule="n real memories (shared driver store.rs): 2-16 ops (put binary / text / chunked, update with and without payload, delete, commit, reopen, exit-without-commit + reopen) ending in a commit, then 0-4 further "
+         "acknowledged puts / updates / deletes that stay in the log (handle dropped through verif_hooks::drop_without_commit); then open_read_only and 3-10 random calls of frame_count / frame_by_id / "
+         "frame_canonical_payload / stats / timeline / search / Memvid::verify, plus a walk over the whole frame table. Oracle (implementation alone): BLAKE3 of the file before the session == after the open, after EVERY call "
+         "and after dropping the handle; frame_count and the frame table (ids, uris, content tags, status, links) equal the table the writer showed at its last commit; a later writable open still replays the log. "
+         "Stream hist compares that table with `committed` of the store model run on the same op list. Stream craft = the first n/3 (small) files after byte surgery, every file: legacy lock bytes 80..140 set "
+         "(boundaries 80 / 139 favoured), a TOC whose last Tantivy segment ends 1..5000 bytes beyond the footer, and two further kinds in rotation (thorough: all): untouched, neighbours 79 / 140 / 141 / 4095 set, "
+         "junk / cut / wrong-hash footers after the last footer, an older commit image appended, garbage in the header's footer pointer, first log record corrupt (payload bit, length 0, length = region), invalid header field "
+         "with and without legacy bytes, segment ending exactly at the footer, tiny files (empty, junk, valid footer over an undecodable TOC, TOC + footer without header, header + junk); plus three opens while a WRITER handle is alive "
+         "(with / without a commit before, with legacy bytes planted under the writer). Compared with the byte-level model: open result (frame_count, footer offset, generation, pending log bytes, log sequence | error kind), "
+         "outputs of the calls incl. verify's pending-record count, the write trace and the exact file bytes afterwards. Stream sys: the session in a child under strace -f -y, no write / pwrite / ftruncate / fsync / rename / unlink "
+         "on the memory file (tag: open flags). Stream crash: children killed at a random mutating syscall, survivor opened read-only: bytes unchanged, view = last completed commit or the commit in flight. "
+         "Stream bigtail: 16 MiB of zeros after the last footer (window doubling). non-trivial = records pending in the log (hist) / surgery applied (craft); distinct by digest of the input",
+    level_text="Unbounded theorems over a line-by-line model of open_read_only_snapshot / load_tail_snapshot / locate_footer_window / EmbeddedWal::open_read_only / HeaderCodec::read_without_repair / init_tantivy -> "
+               "materialize_tantivy_segments -> align_footer_with_catalog (no-op on a read-only handle) / Memvid::verify and the read calls, threading the file bytes and the trace of writes, truncates and syncs, "
+               "for EVERY hash function, Toc decoder, window size, lock state, file content and call sequence: (1) the whole session -- including failing opens, files with legacy lock bytes, inconsistent catalogs, corrupt logs -- "
+               "has an EMPTY trace and leaves the bytes unchanged, with no side condition (also stated in the C02 alphabet); (2) independently, the trace explains every byte change; "
+               "(3) locate_footer_window is sound for every window size, finds nothing iff the file has no valid footer, and is C31's scan for files up to 16 MiB; (4) on the image a commit leaves "
+               "(anything ++ TOC ++ footer) a successful read-only open shows exactly that TOC's frame table and generation whatever the log region holds: the view is `committed`, never `view` of the store model, "
+               "and writes in front of the TOC (log appends) keep the image. History: the code before /repo ced2099 / e2af843 is kept as open_ro_unfixed with the two vm_compute witnesses of the writes it issued (`_unfixed`). "
+               "Tied to the code by byte-exact sessions on real and crafted files, store histories, strace and crash images.",
+    level_note="Holds on the current tree. Two defects were found by this check and repaired in /repo (ced2099: header rewritten when legacy lock bytes 80..140 were non-zero, before the shared lock; e2af843: TOC / footer / header rewritten when a catalogued "
+               "Tantivy segment ended beyond the footer); both input classes stay in the generator as regression cases and any byte change is a violation. Partial: 'the last valid footer is the last commit' is proved for the image a commit leaves "
+               "(file ends at its footer) and checked on real files and crash images, not derived from a model of every write path (C02's domain). Trusted: Coq kernel + vm_compute; hand-written model tied by correspondence; "
+               "BLAKE3, Toc::decode + verify_checksum, prepare_toc_bytes as arbitrary functions (finite tables of real values in the runs); reads never write (read_range, Tantivy, time index are not modelled further); "
+               "the Tantivy scratch directory is not the memory file; a log region reaching past the end of the file is answered with an I/O error (not generated). Observations recorded as tags: the file is opened O_RDWR (needed by the lock / log types; no write syscall follows); "
+               "open_read_only succeeds while a writer handle that has committed at least once is alive (the shared lock is obtained: C17's matter).",
+    trusted_base=["hand-written model coq/Model/ReadOnly.v on top of Model/Footer.v (C31), Model/Header.v (C30), Model/Wal.v (C05), Model/Store.v (C01), alphabet of Model/FsProto.v (C02)",
+                  "H, toc_decode, toc_reencode, maxw are Section variables in the theorems; in the runs: tables of real BLAKE3 digests, Toc::decode + verify_checksum rows, prepare_toc_bytes images, 16 MiB",
+                  "strace -f -y for the syscall stream; crash.rs child + kill injection for crash images"],
+    assumptions=["no I/O errors or short reads", "TOC image + footer fit the first search window (TOC below 16 MiB) in the view theorem", "the log region lies inside the file"],
+    allowed_axioms=[],
+)
+
+PROPS["C22"] = dict(
+    corr_module="Corr.C22",
+    streams={
+        "walscan": dict(runner="C22_wal_run", in_t="C22_wal_in", out_t="C22_wal_out", shard=60),
+    },
+    n_quick=300, n_thorough=6000,
+    harness_timeout=3400,
+    rule="walscan (n/2 cases, compared with the model): files of 4096-5000 zero bytes + 0-6 well-formed log records (payload 1-60 bytes, sequence repeats) followed by nothing / a zero header / fewer than 48 zero bytes / junk / a header with length 0 and sequence <> 0 / sequence 0 and length u32::MAX, 2^31 or small; "
+         "then a bit flip, a cut anywhere, or the first length field forced (0, u32::MAX, tail-47, random); wal_offset = start of the records, +0..59, end of file, beyond it, u64::MAX-k, 2^63-1-k, 2^63, before the records; wal_size = 0, 1..47, 48, exactly the records, +0..47, +48, bytes available, more, less, u64::MAX-k, 2^63; checkpoint sequence 0 / last / last+1 / u64::MAX / random; "
+         "compared: Ok(pending_bytes, sequence) / error class (size zero, length invalid, checksum mismatch, I/O) of EmbeddedWal::open_read_only. "
+         "fuzz (n files, implementation only, each in a child process under RLIMIT_FSIZE 1 GiB, RLIMIT_AS 8 GiB, 20 s CPU, 600 s wall, private TMPDIR): four memories built by the shared driver (text: 8 frames incl. a chunked document, a binary and a deleted frame, two commits; vec: 5 frames with 4-dim embeddings; tracks: memory cards, mesh nodes/edge, sketch track; pending: a commit followed by two puts and a delete that were never committed = crash-left), "
+         "each unchanged, the hand-built witnesses of the known classes, truncations at every region boundary -1/0/+1 and at 0,1,3,4,5,79,80,4095-4097, len-57..len-1 (a sample of n/5, one in six followed by random bytes), and per region class (8 header fields, first log record header, log head, whole log, frame payloads, time index header and body, Tantivy segment files, vec index, sketch header and body, memories track, logic mesh, TOC prefix, TOC, TOC tail, footer magic / toc_len / hash / generation): one byte (bit flip, 0, 0xFF, random), 2-16 random bytes, an edge u64 (0, 1, 2^32+-1, 2^63+-1, 2^64-1, 2^59, 2^40, file length +-1, random), zero fill, random fill, two damages in two regions; "
+         "random files (0-90000 bytes of three styles) behind a valid header with footer_offset / wal_size forced and optionally a valid footer over random bytes; TOC-consistent damage: one of 30 manifest / frame fields set to an edge value with TOC checksum, footer and header re-stamped, and damage inside the time index / sketch / memories / vec / lex regions with the manifest checksum re-stamped. "
+         "Each file, on a fresh copy per entry point: open_read_only + reads, verify(deep), doctor_plan, open + reads, doctor + open + search; reads = stats, frame_by_id / canonical payload / text / preview / embedding / blob_reader for ids 0..4, last, count, u64::MAX, frame_by_uri, 4 timeline queries, 7 searches (word, OR, phrase, AND NOT, date range, uri, no hit), a two-page search, search_vec with 4 and 1 dimensions, sketch stats. "
+         "Oracle: every call returns Ok or Err; a panic (caught per call in the child, reported with its source location), an abort, a death by a limit or a timeout is a violation tagged by panic site + a predicate on the damaged file; an unchanged memory must be accepted by all five entry points. "
+         "req (27 requests on an unchanged memory): top_k / cursor at the usize edges with and without the sketch pre-filter, malformed cursors, date:[* TO *]. "
+         "non-trivial = more than five calls answered or some call refused the file; distinct by BLAKE3 of the damaged file",
+    level_text="Unbounded theorems, for ALL byte strings / header values, over line-by-line models in which every Rust +, -, *, %, index, slice and with_capacity that can panic in the debug profile is an explicit checked operation: "
+               "HeaderCodec::decode / read (C30's model) never panic; find_last_valid_footer (C31's model, structural recursion on search_end) answers for every buffer and inside it; locate_footer_window terminates within 65 doublings and its subtraction, slice and doubling never panic for files below 2^63 bytes; "
+               "EmbeddedWal::scan_records / open_internal: with cursor + 48, offset + cursor, cursor + 48 + length, 48 + length, cursor += and the pending-bytes sum as checked additions and % as a checked remainder, no panic for every file below 2^63 bytes, every wal_offset / wal_size / checkpoint values a header can hold and every hash function, and the loop never exhausts fuel |file|+1 (measure: bytes of the file after offset+cursor; invariant: cursor = 0 or the bytes up to offset+cursor were read); "
+               "verify_toc_prefix never panics and accepts exactly (>= 24 bytes, version <= 32, counts <= 10^6, 32*segments + 64*frames <= length); read_toc (len - footer_offset, buf.len() - 56, both slices) never panics for any non-panicking Toc decoder and for the modelled Toc::decode; the bincode decoder never panics for ANY schema and bytes (new generic theorem), hence Toc::decode (all three layouts); ensure_non_overlapping_frames, Mv2eHeader::decode, parse_cursor never panic; the query parser is total (C32). "
+               "REFUTED with exact classes and proved outside them: time-index read_track (count*16 >= 2^63 with matching length: Vec::with_capacity), read_sketch_track (24 + entry_count*entry_size >= 2^64: unchecked multiply), top_k.max(1) + cursor (> usize::MAX), top_k*10 (>= 2^64). "
+               "open_locked is modelled as a decision procedure over abstract decoder / loader outcomes (sniff, header, read_toc, recovery branch with header rewrite, overlap check, log open, generation, the ordered loaders, the final checksum branch): if every component answers Ok or Err, open answers Ok or Err. "
+               "Everything else on these paths (serde visitors, Tantivy, zstd, HNSW, doctor's rebuilds, the search pipeline) is covered by the child-process test only.",
+    level_note="Partial overall: proof for the modelled decoders, test for the rest. The property as stated is REFUTED on the unchanged tree: known findings F-C22-1..11 (time-index capacity overflow, sketch-track count multiplication, cursor add, top_k multiply, Tantivy's unbounded date range assertion, Tantivy panics on damaged segment bytes with and without re-stamped checksums, writes into a log region the damaged header places beyond the end of the file, Tantivy's collector allocation for an absurd top_k, footer re-alignment to a segment extent beyond the file, i64 subtraction in the recency boost). "
+               "Trusted: Coq kernel + vm_compute; hand-written models (the log scan tied by the walscan correspondence; header / footer / time index / TOC / sketch / cursor / query models tied by C30, C31, C39, C16, C32's runs; verify_toc_prefix, read_toc, locate_footer_window, ensure_non_overlapping_frames and open_locked's control flow are private with no hook: tied only through whole-file runs, see hooks wanted); "
+               "OS model: seek fails above i64::MAX, read_exact fails at EOF, files are shorter than 2^63 bytes; allocations below isize::MAX bytes succeed (scan_records allocates up to 4 GiB - 1 for one record length taken from the file before reading it: bounded, not a panic, noted); debug-profile overflow semantics; Mv2eHeader::decode is not compiled into the harness (feature `encryption` off): modelled, not tied.",
+    trusted_base=["BLAKE3 is a Section variable in the theorems; in the walscan run it is the table of real digests of the record payloads",
+                  "the child-process runner: prlimit(1) for RLIMIT_FSIZE / RLIMIT_AS / RLIMIT_CPU, a panic hook that records file:line and message, catch_unwind per call",
+                  "class predicates of the file-borne findings are evaluated by the harness on the damaged file (TOC decoded from the header's or the last valid footer's position)"],
+    assumptions=["files shorter than 2^63 bytes (off_t), bytes below 256",
+                 "hang detection is by CPU time (20 s per child) plus a 600 s wall-clock cap, so that a loaded machine does not produce false hangs",
+                 "the fuzz stream's inputs depend on Tantivy's random segment names (the base memories are rebuilt each run): the same seed gives the same damage plan but not byte-identical files"],
+    allowed_axioms=[],
+)
+
+PROPS["C21"] = dict(
+    corr_module="Corr.C21",
+    streams={"doctor": dict(runner="C21_run", in_t="C21_in", out_t="C21_out", shard=8, imports=["Model.Doctor"])},
+    n_quick=10, n_thorough=400,
+    harness_timeout=6000,
+    rule="real memories built through the shared driver (1-3 rounds of 2-4 puts of text/binary documents of 1-2300 bytes, 3 in 4 memories with embeddings, a delete + an update + commit per later round), closed normally or left "
+         "crash-interrupted (drop without commit: 1-3 acknowledged puts, optionally a delete and an update, pending in the log); each case = a COPY of the file + one or two targeted damages made with std::fs "
+         "(header footer_offset +k / -k / 0 / beyond EOF / = footer position; header toc_checksum byte flipped; checksum stored inside the TOC flipped; footer magic / toc_len / toc_hash / generation byte flipped; "
+         "time index / vector index / one Tantivy segment zeroed, regions taken from the public Header, Toc and footer types; outside the list: log region overwritten with garbage, pointer + footer both damaged) "
+         "x option sets (quick: fixed plan covering every damage class on a closed and on a crash-left file with default / all-rebuild+vacuum / single flag / dry-run sets; thorough: all 32 on every sixth case, random otherwise); "
+         "sequence per case: doctor(options) -> verify(deep) -> doctor(default or the same options) -> open + frame table. Compared with the model: report status, plan findings + run findings (codes, in order), plan phases, "
+         "verify passed, second run's status, whether the memory opens, the frame table (status, content tag) read back, the vector count. Property oracle (implementation only; reference = the undamaged copy opened normally, "
+         "which replays pending records): doctor status Clean/Healed, every active reference frame present with the same status, content hash and every other column (payload window excepted), verify Passed, second run Clean "
+         "(Clean or Healed with the same forcing options), dry run leaves the bytes unchanged. non-trivial = damaged, or pending records, or non-default options; distinct by digest of (file, damage, options)",
+    level_text="Unbounded theorems over a coarse model of Memvid::doctor that follows doctor.rs' decision tree (read_toc / recover_toc, probe, compute, try_open incl. header fix-up and log replay, try_recover_from_wal_corruption, "
+               "aggressive header repair, phases HeaderHealing / WalReplay / Vacuum / IndexRebuild+apply_pending_rebuilds / Finalize / Verify with reset_wal, header revert, verify, status rule): for EVERY damage of the property's list "
+               "(and every combination that leaves pointer or footer intact), every frame table, every list of pending acknowledged records and all 32 option combinations, outside two known classes: the result's frame table = committed rows with "
+               "the pending records applied (no active frame removed or altered, no acknowledged record dropped), report Clean/Healed with verification passed, the file opens and verifies, a second default run reports Clean "
+               "(any second run: Clean iff nothing is forced, never Failed, rows unchanged); dry_run changes nothing on any file. The property as stated is REFUTED in two classes (F-C21-1 stale-pointer-after-replay, F-C21-2 toc-checksum-field; "
+               "witnesses by vm_compute) and proved outside them. Boundaries stated: unreadable log -> pending records dropped; older intact commit inside the file -> older table restored; pointer and footer both lost -> Failed. "
+               "Tied to the code by doctor runs on real damaged files compared field by field with the model.",
+    level_note="Partial (coarse model): frame content is a tag, index contents are states (none / ok / damaged); what replay, vacuum and rebuild_indexes do to the rows is taken from C01 / C42 (rows = committed + pending applied; vacuum keeps status and content) "
+               "and checked here only end to end on real files. Embeddings are not part of a frame: a forced or damage-triggered vector rebuild empties the vector index (F-C14-1, owned by C14; modelled as vector count 0 and observed). "
+               "A zeroed Tantivy segment is invisible to probe, open and verify (doctor reports Clean; detection is C20's). Known findings F-C21-1, F-C21-2. Trusted: Coq kernel + vm_compute; hand-written model (tied by correspondence); "
+               "the abstract description of each damaged file is derived from the damage applied, not re-measured; harness.",
+    trusted_base=["replay of pending records = apply to the committed rows (C01's theorem); vacuum preserves status and content of every row (C42's theorem); both are re-observed on every case through the frame table read back",
+                  "the TOC is assumed to move when the replay inserts a frame (new payloads are written from the old TOC offset on) and to stay when it only deletes; the harness always includes an insert among the pending records",
+                  "a header whose own magic/version is damaged, I/O errors, lock contention, the legacy lexical index and the parallel-segments vector catalog are not modelled"],
+    assumptions=["wf: TOC body decodes, no older intact commit inside the file (counted by the harness: none produced so far), log readable, pointer and footer not both lost",
+                 "second run 'Clean' is read as: with default options (a forcing option makes the plan non-empty by construction: Healed)",
+                 "loss of embeddings on a vector rebuild is C14's finding F-C14-1, not an altered frame"],
+    allowed_axioms=[],
+)
+
+PROPS["C23"] = dict(
+    corr_module="Corr.C23",
+    streams={"hist": dict(runner="C23_run", in_t="C23_in", out_t="C23_out", shard=2, imports=["Model.Store", "Model.Reads", "Model.Determinism"])},
+    n_quick=10, n_thorough=160,
+    harness_timeout=3000,
+    rule="histories of 6-20 calls on a real memory, every timestamp explicit (some repeated, some decreasing): puts of binary / short text / chunked text (>= 2500 chars) payloads with and without a 4-dimensional embedding and with explicit, repeated or default uris, "
+         "update_frame with and without payload, delete_frame (valid, missing and inactive targets), put_memory_card with explicit created_at, puts with default options (auto-tag, date and triplet extraction, instant index) incl. sentences that yield extracted memory cards, "
+         "commit, vacuum, close+reopen, exit-without-commit+reopen; four profiles: binary without deletes / binary with deletes / mixed text / mixed text with default options and cards. "
+         "EVERY history is executed FOUR times on fresh paths: twice in this process and twice in separate child processes (mvharness C23-child). Compared with the first execution: "
+         "(1) the logical digest: per-call results incl. log sequence numbers and automatic-checkpoint timing, every field of every frame (serde image, payload_offset apart), content hash of every active frame, timeline both directions with child frames and previews, "
+         "~30 searches with no_sketch (16 vocabulary words, multi-word / OR / AND / NOT, uri: field query, words of extracted sentences, document tags; top_k 3 / 10 / 200; rank, frame, ranges, snippet text, total_hits, cursor), "
+         "4 vector searches with distance bit patterns, memory cards (created_at apart), stats counters: ANY difference is a violation (logical-differs); "
+         "(2) byte for byte each of 17 region classes of the files, delimited with HeaderCodec::decode, find_last_valid_footer and Toc::decode (header geometry / footer offset / log position / TOC checksum / padding, log region, frame payloads, time index, embedded Tantivy files, "
+         "vector index, memories track, sketch track, logic mesh, bytes no manifest points to, TOC, footer length+hash, footer magic+generation): a difference in a class the model tags with no oracle source is a violation (deterministic-class-differs), "
+         "differences in oracle-tagged classes are the known finding. Compared with the model (two concrete oracle streams differing everywhere): per-call results, final frame table, time-index ids, vector-index ids, card count, "
+         "and the consistency of the observed per-class difference bits with the tagging (observed => tagged; model images differ => tagged; classes holding segment names must differ whenever the model's images do). "
+         "non-trivial = all four executions completed and the file holds data; distinct by digest of the call list",
+    level_text="Information-flow theorems over a machine in which every source of nondeterminism of the implementation is an explicit oracle stream (Tantivy segment file names, indexing-thread scheduling, SystemTime::now, hash-set order of the frame filter, temp names), built as the product of the logical machine of Model/Reads.v over Model/Store.v "
+               "(frame table with content tags and timestamps, lex_docs, vec_docs, time index, plus memory-card lists) and a physical machine (log records, embedded segment files, stale index images, card stamps) from which a symbolic image of 17 region classes of the file is assembled: "
+               "for ALL histories with explicit timestamps and ALL pairs of oracle streams the logical state and every call result are identical (noninterference); each region class is identical whenever the streams agree on the sources it is tagged with, hence payload / time-index / vector-index / sketch-track / header-geometry / footer-generation bytes are identical for all streams, "
+               "temp names and hash order flow nowhere; the segment files hold the engine's documents as a set; byte identity is refuted (two streams give different TOC images for every hash function) with the exact list of differing classes, a tombstone's timestamp carries now, extracted cards carry now; the explicit-timestamp hypothesis is shown necessary. "
+               "Tied to the code by executing every generated history four times (two processes apart) and comparing logical digests and region classes byte for byte, and by comparing table / time index / vector index / results with the model.",
+    level_note="The property's FIRST sentence (byte-identical files) is REFUTED on the unchanged implementation and recorded as ONE known finding (class bytes-differ-in-oracle-tagged-classes: header footer-offset / log-position / TOC checksum, log, embedded Tantivy files, memories track, unreferenced bytes, TOC, footer length+hash); the SECOND sentence (identical logical state) is proved for the model and enforced on the implementation. "
+               "Partial: the physical machine is symbolic (one word per value, lengths = word counts, BLAKE3 a parameter H), it does not model byte encodings; vacuum is treated as a commit; Tantivy's ranking is an oracle assumed to depend on documents and filter as sets (theorem C23_filtered_search_noninterference states it as hypothesis; the ~30 searches per history test it); "
+               "position classes (footer offset, log position) are tagged with an upper bound of their sources; log growth decisions are oracle inputs of Model/Store.v (observed, identical in all executions). The enrichment queue stamp (now) is not modelled: no generated put needs enrichment.",
+    trusted_base=["hand-written model Model/Determinism.v over Model/Reads.v / Model/Store.v (tied by the four-fold execution and the model comparison)",
+                  "oracle inputs read from the implementation: automatic-checkpoint timing and extra log records (cfg(memvid_verif) wal_stats hook), number of chunk frames, number of extracted cards",
+                  "region delimitation by the implementation's own public decoders (HeaderCodec::decode, find_last_valid_footer, Toc::decode)",
+                  "Tantivy ranking assumed independent of segment layout and filter order (tested, not proved)"],
+    assumptions=["every put / card carries an explicit timestamp (shown necessary: C23_implicit_timestamp_flows)", "engine ranking depends on documents and filter as sets", "a commit does not fail (a committing call that fails in some executions only is recognised, the history re-executed and the event reported as spurious-commit-failure)", "no I/O errors"],
+    allowed_axioms=[],
+)
+
+PROPS["C09"] = dict(
+    corr_module="Corr.C09",
+    streams={
+        "cands": dict(runner="C09_cands_run", in_t="C09_cands_in", out_t="C09_cands_out", shard=45),
+        "recall": dict(runner="C09_run", in_t="C09_in", out_t="C09_out", shard=8),
+        "page": dict(runner="C09_page_run", in_t="C09_page_in", out_t="C09_page_out", shard=60),
+        # stream "failed" (a search that errors or panics) carries only the property oracle's verdict
+    },
+    n_quick=16, n_thorough=220,
+    harness_timeout=3000,
+    rule="n = number of generated memories (+ the two fixed witness memories of F-C09-1 / F-C09-2, run first) and 8*n unit cases. "
+         "cands: Memvid::find_sketch_candidates on a SketchTrack assigned through sketches_mut(): 0-10 generate_sketch entries (Small / Medium / Large) over a 30-word vocabulary "
+         "(repeated words, duplicate texts = tied scores, 40-130-token texts = non-zero length bucket), frame ids dense or sparse, 1/4 written and read back (renumbered, Large cut to 32 bytes); "
+         "query = a word / two words of an entry, other words, 10-25 words, empty, punctuation only; hamming_threshold = the exact Hamming distance of some entry, one below, one above, 0, 10, 32, 64; "
+         "max_candidates 0-3, the entry count, 500; min_score 0, 0.3, the exact score of an entry and one ulp above; compared exactly (frame id, f32 score bits, Hamming distance, matching top terms, order). "
+         "recall: real memories of 1 / 2-5 / 6-30 / 31-80 / 100-200 short documents, each drawing 1..3/6/12/25 words of its OWN from a 2000-word vocabulary of 7-letter pseudo-words, 1-8 planted words each in k = 1..30 documents, "
+         "binary frames (1/10 and often frame 0), deleted frames (often frame 0, sometimes a planted one), optional mid-way commit, 1/3 of the memories with 1-2 two-snippet documents carrying the newest timestamp; "
+         "three states per memory: open handle, after close + reopen (sketch track read back from the file), and in 1/3 after further puts + commit; per state every planted word, 3-8 ordinary words and an absent word, "
+         "top_k = k and one of k+1 / 10 / 50 / 1000 / k-1 / k+0..3 (2 and 3 for multi-snippet words), each with and without no_sketch. Per request the model gets the memory's sketch entries (mem.sketches()), the query's token hashes, "
+         "top_k, no_sketch, the matching frames, the engine oracle U (frames returned with no_sketch and top_k 10000), the returned frames and whether the response was complete; compared: the sorted sketch candidate ids of "
+         "find_sketch_candidates with the options search builds, the class predicate sketch_drops, and returned frames = U restricted to the model's candidate filter (equality when nothing truncates, else inclusion). "
+         "page: multi-snippet requests, hit frames predicted by the page loop from the evaluated order. Property oracle on the implementation alone: k >= 1 matching active frames, k <= top_k, and a matching frame is not among "
+         "the hits' frames (class by cause: not a sketch candidate / response truncated by snippets / other); the engine hypothesis is tested on every request (no_sketch, top_k 10000 must return all k: engine-recall-miss otherwise). "
+         "non-trivial = some request of the batch has 1 <= k <= top_k with the sketch filter applied (recall), at least one entry and one query token (cands), multi-snippet (page); distinct by memory / state / batch and by digest of the unit case",
+    level_text="Unbounded theorems over the line-by-line model of the sketch pre-filter (hamming_distance, term_filter_maybe_overlaps, count_matching_top_terms, QuerySketch::from_query, score_entry, find_candidates with stable sort and truncation, "
+               "find_sketch_candidates) and of Memvid::search from the sketch block to the response (options 32 / max(500,10*top_k) / 0.0, composition with the filter built so far, doc_limit, engine call, evaluation loop, re-sort, page loop: the last four imported from C16's model), "
+               "for every sketch track, query sketch, score function, engine and frame table: (1) recall -- k matching frames, k <= top_k, engine hypothesis, frames evaluable => every one of the k frames has a hit -- proved OUTSIDE two classes; "
+               "(2) with no_sketch the sketch class is empty, so recall holds for all corpora outside the snippet class; (3) the sketch class characterised: the bloom side never rejects a frame sharing a token with the query (any tokenizer / hash / weights; built on C39's theorem), "
+               "the candidates are exactly the entries passing overlap && hamming <= 32 cut to max_candidates, so the class needs a Hamming distance above 32, the max_candidates cut, or a misnumbered entry; (4) reopen keeps the passing frame ids when ids are 0,1,2,.. (always so on real memories: every frame gets an entry), renumbers them otherwise. "
+               "THE PROPERTY AS STATED IS REFUTED twice (vm_compute witnesses, both reproduced on the unchanged implementation): F-C09-1 with real SimHash values of generate_sketch / QuerySketch::from_query (Hamming distance 34), F-C09-2 two snippets of one document fill top_k = 2.",
+    level_note="Property as stated REFUTED in two classes recorded as known findings F-C09-1 (sketch-false-negative: about 10% of single-word queries on 100-document memories lose a frame with the default options) and F-C09-2 (snippets-exceed-top-k); proved outside them. "
+               "The search engine (Tantivy + stemming + BM25) is an oracle with the single hypothesis engine_recall, tested on every generated request by searching with no_sketch and top_k 10000; what the evaluation loop reads per frame (query evaluation, snippet slices) is an input `toc` with the hypothesis `evaluable` "
+               "(C32 / C35 cover those functions). The f32 score of score_entry is a parameter of the theorems (they hold for every score function; the candidate SET does not depend on it while max_candidates does not cut) and is instantiated with a bit-exact binary32 model (Model/RecallF32.v, standard library only) in the correspondence run. "
+               "The reopen renumbering (F-C39-1) could not be made to bite on real memories: put/commit give every frame (binary, blank, deleted, replayed) a sketch entry, so ids are dense; the harness checks this on every memory and would report `sketch-renumbered-after-reopen` as a new violation.",
+    trusted_base=["engine oracle: U = frames returned by the real Memvid::search for the same query with no_sketch = true and top_k = 10000; in the correspondence run engine(F) = U restricted to F",
+                  "sketch entries are read from the implementation (mem.sketches().iter()); BLAKE3 token hashes come from the implementation's hash_token (a token is identified with its hash); the tokenizer is the implementation's tokenize_for_sketch",
+                  "Model/RecallF32.v: a 60-line model of binary32 arithmetic on non-negative normal values (round to nearest even) for the score bits of stream cands only, checked bit for bit against the implementation on every candidate; no theorem of Properties/C09.v depends on it"],
+    assumptions=["engine_recall (Section hypothesis, satisfiable: Example C09_hypotheses_satisfiable / lemma table_engine2_recall): every matching frame inside the candidate filter is among the engine's results whenever at most `limit` matching frames are inside the filter",
+                 "evaluable: each matching frame is in the frame table, passes parsed.evaluate (the word occurs in its lower-cased search text) and yields at least one non-empty in-range snippet slice",
+                 "top_k * 10 <= usize::MAX (otherwise the sketch options panic in debug builds); default request: no cursor, no uri / scope, no date range / as_of (cf0 = None; the theorem is stated for any cf0 containing the matching frames)",
+                 "every score is >= min_score 0.0 (zero_least), true of the f32 formula on finite non-negative operands",
+                 "known findings outside which recall is proved: known_sketch (the sketch stage removes a matching frame from the candidate filter), known_snippets (the evaluated documents yield more snippets than top_k)"],
+    allowed_axioms=[],
+)
+
+# Temporarily held while the models are being updated to repaired /repo code (2026-09-22):
+for _pid in ("C22", "C30", "C16", "C09"):
+    PROPS[_pid]["hold"] = True
